@@ -27,6 +27,7 @@ REPLAYS = os.environ.get("VK_REPLAYS", os.path.join(ROOT, "replays"))
 KNOWN = os.path.join(ROOT, "KNOWN_FINDINGS.txt")
 BUILD = os.environ.get("VK_BUILD", os.path.join(ROOT, ".build"))
 XSIM_PROPS = {"C01", "C07", "C08", "C09", "C10", "C11", "C18"}
+XREG_PROPS = {"C06", "C11"}
 
 
 def log(*a):
@@ -348,6 +349,24 @@ def evaluate(prop, tier, tmpls, unit_cache, kani_cache):
         for xf in xs["failures"]:
             if prop in xf["props"].split(","):
                 xfails.append(xf)
+    # second bounded stand-in: model registration + failure reports (contracts/xreg.rs)
+    xr = None
+    if prop in XREG_PROPS:
+        if "__xreg__" not in unit_cache:
+            from . import xsim as X
+            log("[%s] bounded stand-in xreg (real registration + report text, every model hierarchy up to the bound) …" % prop)
+            unit_cache["__xreg__"] = X.run(tier, BUILD, "xreg")
+            x = unit_cache["__xreg__"]
+            log("[%s]   xreg: %s hierarchies, %d failing checks, %.1fs%s" % (prop, x["scenarios"], len(x["failures"]), x["wall_s"],
+                                                                           " UNAVAILABLE: " + x["undecided"] if x["undecided"] else ""))
+        xr = unit_cache["__xreg__"]
+        if xr["ok"]:
+            for xf in xr["failures"]:
+                if prop in xf["props"].split(","):
+                    f = Failure("xreg", xf["check"], "bounded", xf["check"], xf["detail"], set(xf["props"].split(",")),
+                                "bounded executable stand-in: " + xr["cmd"], 0, backend="rustc+native run (bounded)")
+                    f.input = "model hierarchy: %s\nobserved: %s\nbound: %s" % (json.dumps(xf["scenario"]), xf["detail"], xr["bound"])
+                    all_fail.append((f, {"drift": {r["unit"]: r["drift"] for r in results if r["drift"]}, "path": os.path.join(BUILD, "xreg_unit.rs")}))
     if xfails:
         # a concrete scenario on which the real text contradicts the property statement (bounded search):
         # it becomes the failing input of the obligations Verus refuted for this property, and a
@@ -447,6 +466,9 @@ def evaluate(prop, tier, tmpls, unit_cache, kani_cache):
             "bounded_stand_in": ({"what": "contracts/xsim.rs: real text of Simulation::{step,step_until,process,run,step_to_next_bounded,step_until_unchecked}, util/priority_queue.rs and util/seq_futures.rs cut from /repo with no rewrite rule, compiled against executable stubs, run on every scenario up to the bound and compared with the property statements. LABELLED BOUNDED: not part of obligations/discharged.",
                                   "scenarios": xs["scenarios"], "bound": xs["bound"], "failing_checks": xs["failures"], "samples": xs.get("samples", [])[:6], "unavailable": xs["undecided"],
                                   "seconds": round(xs["wall_s"], 2), "cmd": xs["cmd"]} if xs else None),
+            "bounded_stand_in_registration": ({"what": "contracts/xreg.rs: real text of simulation::add_model, BuildContext, SimInit::add_model, Simulation::{new,run} cut from /repo with no rewrite rule, compiled against executable stubs, run on every model hierarchy up to the bound. LABELLED BOUNDED: not part of obligations/discharged.",
+                                               "scenarios": xr["scenarios"], "bound": xr["bound"], "failing_checks": xr["failures"], "samples": xr.get("samples", [])[:4],
+                                               "unavailable": xr["undecided"], "seconds": round(xr["wall_s"], 2), "cmd": xr["cmd"]} if xr else None),
             "undecided": undecided,
             "exhaustive": False,
         },
